@@ -384,6 +384,7 @@ func typedMore(dir string, seed int64, tier string, repU *Report, wU *CaseWriter
 			}
 		}
 		wU.add(fmt.Sprintf("UnmarshalCase %s %s %s %s %s %s %s", coqOpts(false, false, false), reg, tyS, "(zero "+tyS+")", coqTokens(stream), floatTable(stream), uobs(back, eU)), desc, len(stream) >= 2)
+		tapOracle(repU, target, stream, back, eU, desc)
 
 		// ---------------- C11: schema-less decoding is lossless ----------------
 		adesc := fmt.Sprintf("any: source=%v stream=[%s]", s, truncate(descTokens(ts), 400))
